@@ -70,3 +70,12 @@ Ltac split_ifs_z :=
   repeat match goal with
          | |- context [if ?c then _ else _] => let E := fresh "E" in destruct c eqn:E; try (exfalso; lia)
          end.
+
+(* a units-managed attribute read while the units [u] are current yields to_cur u (stored), written it stores to_int u (value):
+   when every such access of a library function happens under internal units (factor one), the function sees and stores the
+   stored values themselves, whatever units its caller has *)
+Lemma accesses_internal (fac : eunit -> Q) (l : list eunit) (x : Q) : fac E_int == 1 -> (forall u, In u l -> u = E_int) ->
+  Forall (fun u => to_cur fac u x == x /\ to_int fac u x == x) l.
+Proof.
+  intros Hf Hl. apply Forall_forall. intros u Hin. rewrite (Hl u Hin). unfold to_cur, to_int. cbn [is_nm]. rewrite Hf. split; field.
+Qed.
